@@ -16,6 +16,7 @@ pub open spec fn ratio_floor(a: nat, b: nat) -> nat { if b == 0 { 0 } else { (a 
 #[verifier::opaque]
 pub open spec fn mulratio(a: nat, n: nat, d: nat) -> nat { if d == 0 { 0 } else { (a * n) / d } }
 
+#[derive(Debug)]
 pub struct StdError { pub kind: u8 }
 impl StdError {
     #[verifier::external_body]
@@ -403,4 +404,12 @@ impl core::cmp::PartialEq for Decimal256 {
 impl PartialEqSpecImpl for Decimal256 {
     open spec fn obeys_eq_spec() -> bool { true }
     open spec fn eq_spec(&self, o: &Decimal256) -> bool { self.v() == o.v() }
+}
+
+/// exec side of DecNum: `Into<Uint128>` as used by SignedInt::from_subtraction (rewrite R13):
+/// identity for Uint128; bignumber's asserting conversion for Uint256.
+pub trait DecNumExec: DecNum {
+    fn into128(self) -> (r: Uint128)
+        requires self.fits128()
+        ensures r.0 == self.numval();
 }
